@@ -190,8 +190,9 @@ def gen_chain_problem(rng, g):
     literals that are relevant to the goal only through several steps of that relation.  Vocabulary (types, objects,
     fluents, declared initial values) from the G2 grammar; besides the chain: 0-2 unconditional setter actions, now
     and then a precondition, two edges in one action, a final action whose precondition (a merge target that is not a
-    goal) is the chain's end.  Returns (problem, indices of the chain's ground fluents, index of the goal fluent,
-    polarity of the goal literal)."""
+    goal) is the chain's end.  Returns (problem, info) with info = indices of the chain's ground fluents `ch`, the
+    polarity `cpos[i]` of edge i's condition on ch[i], the literals `false0` (goal, end of the chain) that a base
+    state should falsify."""
     for _ in range(20000):
         V = g.problem()
         if 3 <= len(upj.keys_of(V)) <= MAX_KEYS:
@@ -202,24 +203,26 @@ def gen_chain_problem(rng, g):
     n = len(keys)
     L = min(n - 1, rng.choice([2, 2, 2, 3]))
     ch = rng.sample(range(n), L + 1)
-    edges = []
+    edges, cpos = [], []
     for i in range(L):
-        cond = [(keys[ch[i]], rng.random() < 0.5)]
-        if rng.random() < 0.2:
+        cpos.append(rng.random() < 0.5)
+        cond = [(keys[ch[i]], cpos[i])]
+        if rng.random() < 0.15:
             side = [j for j in range(n) if j not in (ch[i], ch[i + 1])]
             if side:
                 cond.append((keys[rng.choice(side)], rng.random() < 0.5))
                 rng.shuffle(cond)
         edges.append((keys[ch[i + 1]], rng.random() < 0.5, cond))
     groups = [[e] for e in edges]
-    if rng.random() < 0.25:
+    if rng.random() < 0.2:
         i = rng.randrange(L - 1)
         groups[i:i + 2] = [groups[i] + groups[i + 1]]
     gk, gpos = ch[L], edges[-1][1]
+    false0 = [(gk, gpos)]
     acts = []
     for i, grp in enumerate(groups):
         pre = []
-        if rng.random() < 0.2:
+        if rng.random() < 0.15:
             pre = [(keys[rng.randrange(n)], rng.random() < 0.5)]
         acts.append(_ground_action("e%d" % i, pre, grp))
     free = [j for j in range(n) if j not in ch]
@@ -229,7 +232,8 @@ def gen_chain_problem(rng, g):
         v = rng.random() < 0.5
         acts.append(_ground_action("fin", [(keys[gk], gpos)], [(keys[j], v, [])]))
         gk, gpos = j, v
-    for i in range(rng.choice([0, 1, 1, 2])):
+        false0.append((gk, gpos))
+    for i in range(rng.choice([0, 0, 1, 1, 2])):
         cands = [j for j in range(n) if j != gk]
         acts.append(_ground_action("s%d" % i, [], [(keys[rng.choice(cands)], rng.random() < 0.5, [])]))
     rng.shuffle(acts)
@@ -240,22 +244,33 @@ def gen_chain_problem(rng, g):
     P = dict(V, actions=acts, goals=goals)
     if not one_effect_per_ground_fluent(P):
         raise MachineryError("chain stratum: two effects on one ground fluent in one action")
-    return P, ch, gk, gpos
+    return P, {"ch": ch, "cpos": cpos, "false0": false0}
 
 
-def gen_chain_states(rng, n, ch, gk, gpos):
-    """2-4 states around a base state in which the goal literal is false; every other state flips ONE fluent of
-    the chain (half of the time its source), now and then a second fluent: whether a state is dominated is then
-    decided by a single literal"""
+def gen_chain_base(rng, n, info):
+    """a base state in which the goal (and the end of the chain) is false and, mostly, the conditions of the later
+    edges hold (the later part of the chain can fire: whether it still does after the earlier edges were applied is
+    what depends on the first fluents of the chain)"""
     base = [rng.random() < 0.5 for _ in range(n)]
-    base[gk] = not gpos
+    for i in range(1, len(info["cpos"])):
+        if rng.random() < 0.6:
+            base[info["ch"][i]] = info["cpos"][i]
+    for j, pos in info["false0"]:
+        base[j] = not pos
+    return base
+
+
+def gen_chain_states(rng, n, info):
+    """2-4 states around a base state: every other state flips ONE fluent of the chain (mostly its source), now and
+    then a second fluent: whether a state is dominated is then decided by a single literal"""
+    base = gen_chain_base(rng, n, info)
     out = [base]
-    inner = [j for j in ch if j != gk] or list(ch)
-    for _ in range(rng.choice([1, 1, 2, 2, 3])):
+    ch = info["ch"]
+    for t in range(rng.choice([1, 1, 2, 2, 3])):
         s = list(base)
-        j = ch[0] if rng.random() < 0.5 else rng.choice(inner)
+        j = ch[0] if (t == 0 and rng.random() < 0.8) or rng.random() < 0.3 else rng.choice(ch[:-1])
         s[j] = not s[j]
-        if rng.random() < 0.25:
+        if t > 0 and rng.random() < 0.3:
             j = rng.randrange(n)
             s[j] = not s[j]
         if s not in out:
@@ -591,32 +606,26 @@ def make_jobs(ctx, n_explicit, n_contingent, n_dom_trials, n_chain=0, n_chain_co
         add(fam="contingent", P=P, cons=gen_constraints(ctx.rng, len(upj.keys_of(P))))
     # `chain` stratum (generated after the other strata, which therefore stay what they were for a given seed)
     for k in range(n_chain):
-        P, ch, gk, gpos = gen_chain_problem(ctx.rng, g)
+        P, info = gen_chain_problem(ctx.rng, g)
         n = len(upj.keys_of(P))
-        S = gen_chain_states(ctx.rng, n, ch, gk, gpos)
+        S = gen_chain_states(ctx.rng, n, info)
         b = add(fam="explicit", P=P, inits=S, strat="chain")
         # the same states in the opposite order (of states the reduction ranks equal, the first is kept)
         if len(S) > 1:
             add(fam="explicit", P=P, inits=S[::-1], base=b["id"], variant="rev", strat="chain")
-        if k % 2 == 0:
-            x = list(ctx.rng.choice(S))
-            for i in ctx.rng.sample(range(n), ctx.rng.choice([1, 1, 2])):
-                x[i] = not x[i]
-            if x not in S:
-                E = list(S)
-                E.insert(ctx.rng.randint(0, len(E)), x)
-                add(fam="explicit", P=P, inits=E, base=b["id"], variant="ext", strat="chain")
     for k in range(n_chain_contingent):
-        P, ch, gk, gpos = gen_chain_problem(ctx.rng, g)
-        add(fam="contingent", P=P, cons=gen_constraints(ctx.rng, len(upj.keys_of(P)), among=[j for j in ch if j != gk] or ch),
-            strat="chain")
+        P, info = gen_chain_problem(ctx.rng, g)
+        keys = upj.keys_of(P)
+        base = gen_chain_base(ctx.rng, len(keys), info)
+        P = dict(P, init=[{"f": k_[0], "args": [upj.OV(a) for a in k_[1]], "v": upj.BV(v)} for k_, v in zip(keys, base)])
+        add(fam="contingent", P=P, cons=gen_constraints(ctx.rng, len(keys), among=info["ch"][:-1]), strat="chain")
     return jobs
 
 
 def run(ctx):
     q = ctx.quick
     n_explicit, n_contingent, n_dom = (50, 40, 2) if q else (250, 250, 3)
-    n_chain, n_chain_cont = (20, 8) if q else (120, 40)
+    n_chain, n_chain_cont = (22, 8) if q else (120, 40)
     jobs = make_jobs(ctx, n_explicit, n_contingent, n_dom, n_chain, n_chain_cont)
     with Pool(POOL, initializer=_warm) as pool:
         recs = pool.map(worker, jobs, chunksize=2)
@@ -634,7 +643,7 @@ def run(ctx):
     if not any(r["raised"] == "none" for r in rows):
         raise MachineryError("no compilation succeeded")
     # ---- stage 1+2: exhaustive explorations (K with beliefs; belief space of P) ---------------------------
-    chunk = 60
+    chunk = 64
     printed, skipped = [], []
     for i in range(0, len(rows), chunk):
         p, s = explore(ctx, rows[i:i + chunk], "b%d" % (i // chunk), stats)
